@@ -36,6 +36,10 @@ def gen_and_run(tier, seed):
         for c in b4[:40000]:
             c["cls2"] = "light"
             base.append(c)
+    # the same lock-step on node classes with user-defined __eq__/__bool__/__len__/__hash__ (both mixins get
+    # the same special methods): identity-only code behaves identically, value-based code does not
+    nb = len(base)
+    base += [dict(c, adv=gen.ADV_KINDS[i % len(gen.ADV_KINDS)]) for i, c in enumerate(base[:nb]) if i % 4 == 1]
     obs0 = mc.run_impl(base, PROP)
     flat = [o["a"] if isinstance(o, dict) and "a" in o else o for o in obs0]
     sample = list(zip(base, flat))
